@@ -344,7 +344,26 @@ func (P *Program) registerStd() {
 	s1 := func(f func(a string) string) intrinsic {
 		return func(fr *frame, args []value) value { return f(fr.in.goStr(args[0], "strings arg")) }
 	}
-	P.reg("strings.ToLower", s1(strings.ToLower))
+	P.reg("strings.ToLower", func(fr *frame, args []value) value {
+		in := fr.in
+		if gs, ok := args[0].(string); ok {
+			return strings.ToLower(gs)
+		}
+		// symbolic: exact on the spellings of the literals the program compares against; any other
+		// string lowers to something that is none of those literals (mixed-case spellings such as
+		// "bEARER" are outside the string model)
+		c := in.C
+		st := in.strTerm(args[0])
+		c.DeclareFun("str_lower", []smt.Sort{smt.Str}, smt.Str)
+		res := c.App("str_lower", st)
+		for _, w := range []string{"bearer", "basic"} {
+			forms := c.Or(c.Eq(st, c.StrConst(w)), c.Eq(st, c.StrConst(strings.ToUpper(w))), c.Eq(st, c.StrConst(strings.ToUpper(w[:1])+w[1:])))
+			in.assumeSilently(c.Eq(forms, c.Eq(res, c.StrConst(w))))
+		}
+		in.assumeSilently(c.Implies(c.Or(c.IsHex(st), c.IsDec(st)), c.Eq(res, st)))
+		in.path.noteAssumption("strings.ToLower on symbolic text is exact for lower/UPPER/Capitalised spellings of compared literals; other mixed-case spellings are outside the string model")
+		return res
+	})
 	P.reg("strings.ToUpper", s1(strings.ToUpper))
 	P.reg("strings.TrimSpace", s1(strings.TrimSpace))
 	P.reg("strings.Contains", func(fr *frame, args []value) value {
